@@ -27,6 +27,24 @@ class Ang:
     __mul__ = __rmul__
 
 
+# sentinel ply angles in degrees: genuine numbers with the genuine relations between a ply, its mirror image and its 90-degree
+# rotation (code that negates or compares theta sees what it would see for real angles); cos/sin of them are the symbols of ply k
+def encode_angle(kind, k):
+    a = 7.0 + 11.0 * k
+    return {'base': a, 'mirror': -a, 'rot90': a + 90.0}[kind]
+
+
+def decode_angle(x):
+    if not isinstance(x, float):
+        return None
+    for kind, a in (('mirror', -x), ('rot90', x - 90.0), ('base', x)):
+        k = (a - 7.0) / 11.0
+        if a >= 7.0 and a < 90.0 and k == int(k):
+            if (kind == 'rot90') == (x >= 90.0) and (kind == 'mirror') == (x < 0):
+                return kind, int(k)
+    return None
+
+
 class World:
     def __init__(self, values=None, seed=0, alias=None):
         import random
@@ -43,6 +61,8 @@ class World:
             return Sym(name)
         if self.values is None:
             return Sym.var(name)
+        if name in self.used:
+            return Sym(self.used[name])         # one value per name within a run
         if name in self.values:
             v = Fraction(self.values[name])
         else:
@@ -75,9 +95,9 @@ class World:
 
     # stubs -----------------------------------------------------------------------------------------
     def deg2rad(self, x):
-        if isinstance(x, float) and x >= 1000.0:
-            kind = {1: 'base', 2: 'mirror', 3: 'rot90'}[int(x) // 1000]
-            return Ang(int(x) % 1000, kind)
+        dec = decode_angle(x)
+        if dec is not None:
+            return Ang(dec[1], dec[0])
         return np.deg2rad(x)
 
     def cos(self, a):
@@ -194,9 +214,8 @@ def expand_prop(w, k, form):
 def run_stack(w, kinds, ts, props, d, uniform=False, order=None):
     """call the real read_stack; kinds[k] in base/mirror/rot90 gives the sentinel angle of ply k"""
     from compmech.composite import laminate
-    base = {'base': 1000.0, 'mirror': 2000.0, 'rot90': 3000.0}
     order = order if order is not None else list(range(len(kinds)))
-    stack = [base[kinds[k]] + k for k in order]
+    stack = [encode_angle(kinds[k], k) for k in order]
     if uniform:
         return laminate.read_stack(stack, plyt=ts[0], laminaprop=props[0], offset=d)
     return laminate.read_stack(stack, plyts=[ts[k] for k in order], laminaprops=[props[k] for k in order], offset=d)
@@ -228,6 +247,7 @@ def build(cfg, values=None):
             full.append(b)
         ts = [w.V('t_%d' % (0 if uniform else k)) for k in range(N)]
         kinds = ['base'] * N
+        pairs = cfg.get('balanced_pairs')
         if variant == 'oracle':
             if cfg.get('after_other_calls'):
                 # earlier calls in the same process with OTHER plies (more of them, another thickness and material), in both
@@ -235,8 +255,22 @@ def build(cfg, values=None):
                 pa, _ = expand_prop(w, 50, form)
                 run_stack(w, ['base'] * (N + 1), [w.V('t_50')] * (N + 1), [pa] * (N + 1), w.V('d_50'), uniform=True)
                 run_stack(w, ['base'] * (N + 1), [w.V('t_50')] * (N + 1), [pa] * (N + 1), w.V('d_50'), uniform=False)
-            lam = run_stack(w, kinds, ts, tup, d, uniform=uniform)
-            plies = [w.base(k) + (ts[k],) + tuple(Sym.lift(x) for x in full[k]) for k in range(N)]
+            if pairs:
+                # balanced stack: every ply is followed by its exact -theta twin of the same material (what most real laminates contain)
+                from compmech.composite import laminate
+                stack, plyts_, props_, plies = [], [], [], []
+                for k in range(N):
+                    c_, s_ = w.base(k)
+                    for kind, sg, tname in (('base', 1, 'ta_%d'), ('mirror', -1, 'tb_%d')):
+                        stack.append(encode_angle(kind, k))
+                        t_ = w.V(tname % k)
+                        plyts_.append(t_)
+                        props_.append(tup[k])
+                        plies.append((c_, sg * s_, t_) + tuple(Sym.lift(x) for x in full[k]))
+                lam = laminate.read_stack(stack, plyts=plyts_, laminaprops=props_, offset=d)
+            else:
+                lam = run_stack(w, kinds, ts, tup, d, uniform=uniform)
+                plies = [w.base(k) + (ts[k],) + tuple(Sym.lift(x) for x in full[k]) for k in range(N)]
             A, B, D, Es, ttot = oracle_ABDE(plies, d)
             exp = {}
             blocks = {(0, 0): A, (0, 1): B, (1, 0): B, (1, 1): D}
@@ -322,7 +356,7 @@ def build(cfg, values=None):
     assumptions = w.unit_circle()
     if values is None:
         for k in range(N):
-            for nm in ('t_%d', 'E_%d', 'E1_%d', 'E2_%d', 'G12_%d', 'G13_%d', 'G23_%d'):
+            for nm in ('t_%d', 'ta_%d', 'tb_%d', 'E_%d', 'E1_%d', 'E2_%d', 'G12_%d', 'G13_%d', 'G23_%d'):
                 assumptions.append(z3.Real(nm % k) > 0)
             assumptions.append(z3.Real('E1_%d' % k) - z3.Real('nu12_%d' % k) * z3.Real('nu12_%d' % k) * z3.Real('E2_%d' % k) > 0)
             assumptions.append(z3.Real('nu_%d' % k) * z3.Real('nu_%d' % k) < 1)
@@ -376,6 +410,9 @@ def configs(tier, seed):
         out.append({'N': N, 'form': 6, 'variant': 'shift', 'group': 'reference-shift:N=%d' % N})
         out.append({'N': N, 'form': 6, 'variant': 'mirror', 'group': 'mirror-angles:N=%d' % N})
         out.append({'N': N, 'form': 6, 'variant': 'rot90', 'group': 'rotate-90:N=%d' % N})
+    for N in ([1] if quick else [1, 2]):
+        for form in (6, 9):
+            out.append({'N': N, 'form': form, 'variant': 'oracle', 'balanced_pairs': True, 'group': 'ABDE-vs-integral-balanced-pairs:N=%d' % N, 'timeout_ms': 240000})
     for N in ([1, 2] if quick else [1, 2, 3, 4]):
         out.append({'N': N, 'form': 6, 'variant': 'midsym', 'group': 'midplane-symmetric-B0:halfN=%d' % N})
     for N in ([2] if quick else [2, 3, 4]):
